@@ -165,3 +165,17 @@ Lemma param_mutator_sites_fresh :
   forallb (fun s => snd s) param_mutator_call_sites = true /\
   forallb (fun s => smem (snd (fst (fst s))) (map fst expected_param_mutators)) param_mutator_call_sites = true.
 Proof. split; vm_compute; reflexivity. Qed.
+
+(* the hypotheses of the instance theorems are satisfiable: a semantics that reads, on the receiver,
+   exactly the generated fields *)
+Definition own_reads (m : mkey) : list fkey := map (fun f => (fst (fst m), f)) (gen_reads (mname m)).
+Definition own_sem (m : mkey) (st : fkey -> N) : N := fold_right N.add 0%N (map st (own_reads m)).
+
+Lemma own_reads_sound : forall m s1 s2, (forall f, In f (own_reads m) -> s1 f = s2 f) -> own_sem m s1 = own_sem m s2.
+Proof. intros m s1 s2 H. unfold own_sem. f_equal. apply map_ext_in. exact H. Qed.
+
+Lemma own_gen_covers : forall m f, is_cached_key m = true -> In f (own_reads m) -> In (snd f) mutable_fields ->
+  In (snd f) (gen_reads (mname m)).
+Proof.
+  intros m f _ H _. unfold own_reads in H. apply in_map_iff in H. destruct H as (g & <- & Hg). exact Hg.
+Qed.
